@@ -518,8 +518,8 @@ package goat
 // C15: locking discipline of every shared field of package goat
 
 //@ fielddefault[C15.discipline] goat.Server init_only
-//@ field[C15.discipline] goat.Server.unaryInterceptor init_only by=goat.UnaryInterceptor$1,goat.ChainUnaryInterceptor$1
-//@ field[C15.discipline] goat.Server.streamInterceptor init_only by=goat.StreamInterceptor$1,goat.ChainStreamInterceptor$1
+//@ field[C15.discipline] goat.Server.unaryInterceptor init_only by=goat.UnaryInterceptor$1,goat.ChainUnaryInterceptor$2
+//@ field[C15.discipline] goat.Server.streamInterceptor init_only by=goat.StreamInterceptor$1,goat.ChainStreamInterceptor$2
 //@ field[C15.discipline] goat.Server.statsHandlers init_only by=goat.StatsHandler$1
 //@ field[C15.discipline] goat.Server.services init_only by=goat.(*Server).RegisterService
 //@ fielddefault[C15.discipline] goat.serviceInfo init_only
